@@ -110,6 +110,17 @@ def run_selftest(pid, R=None, jobs=None, verbose=True):
     tasks.append((pid, "<normalised-tree>", base))
     # ... and so must the tree with every local variable renamed (no rule may hang on the name of a local)
     tasks.append((pid, "<locals-renamed>", {m: alpha_rename(t) for m, t in base.items()}))
+    # ... and the trees produced by the mechanical behaviour-preserving rewrites (sa/refuzz.py), each applied to the whole package
+    from . import refuzz as _rf
+
+    for op in _rf.OPS:
+        srcs = {}
+        for m, t in base.items():
+            try:
+                srcs[m] = _rf.apply(t, op)[0] if m in _rf.MODS else t
+            except Exception:
+                srcs[m] = t
+        tasks.append((pid, f"<rewritten:{op}>", srcs))
     results = {}
     jobs = jobs or min(16, max(1, len(tasks)))
     with ProcessPoolExecutor(max_workers=jobs) as ex:
@@ -118,7 +129,7 @@ def run_selftest(pid, R=None, jobs=None, verbose=True):
     fired, silent, lost, false_alarm, errors = [], [], [], [], []
     byid = {v["id"]: v for v in vs}
     for vid, (code, viol, errs) in results.items():
-        if vid in ("<normalised-tree>", "<locals-renamed>"):
+        if vid in ("<normalised-tree>", "<locals-renamed>") or vid.startswith("<rewritten:"):
             if code != 0:
                 false_alarm.append((vid, code, viol, errs))
             continue
